@@ -140,6 +140,15 @@ fn run_c01_examples() -> Outcome {
     let case = draw_case();
     stats::sig(fnv(case.args.join(" ").as_bytes()));
     stats::sample(|| format!("{{\"example\":\"{}\",\"threads\":{threads}}}", case.args[1..].join(" ")));
+    // rescue-raps, merkle and the lamport examples draw their inputs from the thread-local OS-seeded
+    // generator every time they are constructed: a run on them is not a function of the seed (the
+    // determinism self-test caught the leak through the nonce-search counters), so a failure there
+    // could not be replayed. They are left out; GenAir covers auxiliary segments and sequence
+    // assertions with seeded inputs.
+    if case.kind >= 8 {
+        stats::count("steps.randomised_example_skipped", 1);
+        return Ok(());
+    }
     stats::count(&format!("example.{}", KINDS[case.kind]), 1);
     let Some(ex) = build(&case) else {
         stats::count("steps.example_refused_options", 1);
